@@ -188,8 +188,9 @@ def _get_addrinfo_list(hostname, port: int, is_secure: bool, proxy) -> tuple:
                 phost, pport, 0, socket.SOCK_STREAM, socket.SOL_TCP
             )
             return addrinfo_list, True, pauth
-    except (socket.gaierror, UnicodeError) as e:
-        # UnicodeError: the IDNA step inside getaddrinfo refuses the host name
+    except (socket.gaierror, ValueError) as e:
+        # ValueError: getaddrinfo refuses the host name before any lookup
+        # (UnicodeError from its IDNA step, "embedded null character")
         raise WebSocketAddressException(e)
 
 
